@@ -340,14 +340,21 @@ func (v *Vue) resolveArgument(ctx VueContext, arg string) any {
 		return i
 	}
 
-	// Try to parse as float
-	if f, err := strconv.ParseFloat(arg, 64); err == nil {
-		return f
+	// Try to parse as float. A numeric literal starts with a digit, a sign or a dot: "inf", "nan" and
+	// "infinity", which ParseFloat also accepts, are variable names here.
+	if arg != "" && (arg[0] >= '0' && arg[0] <= '9' || arg[0] == '-' || arg[0] == '+' || arg[0] == '.') {
+		if f, err := strconv.ParseFloat(arg, 64); err == nil {
+			return f
+		}
 	}
 
-	// Try to parse as bool
-	if b, err := strconv.ParseBool(arg); err == nil {
-		return b
+	// Boolean literals are true and false. The other spellings ParseBool accepts ("t", "f", "T", "F",
+	// "True", ...) are variable names: fn(f) passes the variable f, as {{ f }} prints it.
+	switch arg {
+	case "true":
+		return true
+	case "false":
+		return false
 	}
 
 	// Try to resolve as variable
